@@ -21,9 +21,10 @@
    hals_nnls with nonzero_rows=True and epsilon > 0 is the call with nonzero_rows=False.
    Round 8: the list branch of fista (UtU = [A, B]) -- iterates >= epsilon; its gradient is the gradient of the row-major flattened
    Kronecker problem; a fixed point of the projected step is a global minimiser of the matrix objective over the non-negative
-   orthant (A, B symmetric, the Kronecker form assumed positive semidefinite). *)
+   orthant (A, B symmetric, the Kronecker form assumed positive semidefinite); the list branch IS the matrix branch on the Kronecker
+   matrix (same decisions, same result), and the O(1/K^2) rate transferred through that identity. *)
 From Coq Require Import List Arith Reals Lra QArith Qabs.
-From TLV Require Import Base.Ops Base.PyList Base.Tensor Base.RSum Model.Nnls Model.NnlsEntry Proofs.NnlsProofs Proofs.NnlsProofsDescent Proofs.NnlsProofsNz Proofs.NnlsProofsAdmm Proofs.NnlsProofsFista Proofs.NnlsProofsFista2 Proofs.NnlsProofsFista2Opt Proofs.NnlsProofsAset Proofs.NnlsProofsAsetCert Proofs.NnlsProofsAsetFull Proofs.NnlsProofsExamples Proofs.NnlsProofsConv Proofs.NnlsProofsStep Proofs.NnlsProofsEntry Proofs.NnlsProofsGap Proofs.NnlsProofsTol0 Proofs.NnlsProofsAsetRnd Proofs.NnlsProofsUnique Proofs.NnlsProofsLimit Proofs.NnlsProofsFistaRate Proofs.NnlsProofsEps Proofs.NnlsProofsAsetTerm Model.NnlsAdmm Proofs.NnlsProofsAdmmLoop Proofs.NnlsProofsAdmmWitness Model.NnlsMomentum Proofs.NnlsProofsMomentum Proofs.NnlsProofsNzEps Proofs.NnlsProofsAsetFallback Proofs.NnlsProofsAsetFallbackW.
+From TLV Require Import Base.Ops Base.PyList Base.Tensor Base.RSum Model.Nnls Model.NnlsEntry Proofs.NnlsProofs Proofs.NnlsProofsDescent Proofs.NnlsProofsNz Proofs.NnlsProofsAdmm Proofs.NnlsProofsFista Proofs.NnlsProofsFista2 Proofs.NnlsProofsFista2Opt Proofs.NnlsProofsFista2Kron Proofs.NnlsProofsFista2Gram Proofs.NnlsProofsAset Proofs.NnlsProofsAsetCert Proofs.NnlsProofsAsetFull Proofs.NnlsProofsExamples Proofs.NnlsProofsConv Proofs.NnlsProofsStep Proofs.NnlsProofsEntry Proofs.NnlsProofsGap Proofs.NnlsProofsTol0 Proofs.NnlsProofsAsetRnd Proofs.NnlsProofsUnique Proofs.NnlsProofsLimit Proofs.NnlsProofsFistaRate Proofs.NnlsProofsEps Proofs.NnlsProofsAsetTerm Model.NnlsAdmm Proofs.NnlsProofsAdmmLoop Proofs.NnlsProofsAdmmWitness Model.NnlsMomentum Proofs.NnlsProofsMomentum Proofs.NnlsProofsNzEps Proofs.NnlsProofsAsetFallback Proofs.NnlsProofsAsetFallbackW.
 From TLV Require Model.Prox.
 Import ListNotations.
 Open Scope R_scope.
@@ -1143,6 +1144,68 @@ Example C13_fista_list_optimal_hypotheses_satisfiable :
   fista2_new Rops f2_UtM f2_A f2_B 1 true 0 0 (1 / 2) 0 f2_V = f2_V /\
   mget Rops f2_V 0 0 = 1 /\ mget Rops f2_V 1 0 = 0.
 Proof. exact fista2_opt_hypotheses_satisfiable. Qed.
+
+(* FULL (round 8): THE LIST BRANCH IS THE MATRIX BRANCH ON THE KRONECKER MATRIX.  flatM r1 r2 X = the (r1 r2) x 1 column of the entries
+   X[p / r2, p mod r2] (row-major), kronM r1 r2 A B = the (r1 r2) x (r1 r2) matrix A[p / r2, q / r2] B[p mod r2, q mod r2]:
+   fista with UtU = [A, B] from x0 and fista with UtU = kronM from flatM x0 take the same stopping decisions and return the same
+   point -- every start, step, tol, epsilon, non_negative flag, momentum list (induction over the iterations).  Every statement about
+   the matrix branch therefore speaks about the list branch of an order-2 unknown. *)
+Theorem C13_fista_list_is_fista_on_kronecker : forall (r1 r2 : nat) (UtM A B : list (list R)) (nonneg : bool) (sp rd lr tol eps : R),
+  wfm r1 r1 A -> wfm r2 r2 B -> wfm r1 r2 UtM ->
+  forall (x0 : list (list R)) (betas : list R), wfm r1 r2 x0 ->
+  flatM r1 r2 (fista2 Rops UtM A B r2 nonneg sp rd lr tol eps x0 betas) =
+  fista Rops (flatM r1 r2 UtM) (kronM r1 r2 A B) 1 nonneg sp rd lr tol eps (flatM r1 r2 x0) betas.
+Proof. exact fista2_is_fista_on_kronecker. Qed.
+Print Assumptions C13_fista_list_is_fista_on_kronecker.
+Theorem C13_fista_list_same_decisions : forall (r1 r2 : nat) (UtM A B : list (list R)) (nonneg : bool) (sp rd lr tol eps : R),
+  wfm r1 r1 A -> wfm r2 r2 B -> wfm r1 r2 UtM ->
+  forall (betas : list R) (first : bool) (norm0 : R) (x xu : list (list R)), wfm r1 r2 x -> wfm r1 r2 xu ->
+  let t2 := fista2_trace Rops UtM A B r2 nonneg sp rd lr tol eps betas first norm0 x xu in
+  let t1 := fista_trace Rops (flatM r1 r2 UtM) (kronM r1 r2 A B) 1 nonneg sp rd lr tol eps betas first norm0 (flatM r1 r2 x) (flatM r1 r2 xu) in
+  fst t2 = fst t1 /\ flatM r1 r2 (snd t2) = snd t1.
+Proof. exact flatM_trace. Qed.
+Print Assumptions C13_fista_list_same_decisions.
+
+(* FULL (round 8): the O(1/K^2) rate of Beck & Teboulle for the list branch (C13_fista_rate transferred through the theorem above):
+   non_negative=True, tol = 0, A, B symmetric, the Kronecker form PSD (assumed of the form), step lr <= 1/L stated on the form, ridge >= 0,
+   any start, any epsilon, any comparison point s >= epsilon, in the flattened index p = i r2 + j;
+   qp_f (r1 r2) kronG (flatf UtM) IS the matrix objective obj2 (C13_fista_list_objective_is_matrix_objective) *)
+Theorem C13_fista_list_rate : forall (r1 r2 : nat) (UtM A B : list (list R)) (sp rd lr eps : R),
+  wfm r1 r1 A -> wfm r2 r2 B -> wfm r1 r2 UtM ->
+  (forall i k, mget Rops A i k = mget Rops A k i) -> (forall j l, mget Rops B j l = mget Rops B l j) ->
+  (forall d, 0 <= quad (r1 * r2) (kronG A B r2) d) -> 0 <= rd -> 0 < lr ->
+  (forall d : nat -> R, lr * (quad (r1 * r2) (kronG A B r2) d + 2 * rd * rsum (r1 * r2) (fun i => (d i)^2)) <= rsum (r1 * r2) (fun i => (d i)^2)) ->
+  forall t : nat -> R, (forall k, t (S k) ^ 2 - t (S k) = t k ^ 2) -> (forall k, 1 <= t (S k)) ->
+  forall s : nat -> R, (forall p, (p < r1 * r2)%nat -> eps <= s p) ->
+  forall (K : nat) (x0 : list (list R)), t 0%nat = 0 -> t 1%nat = 1 -> wfm r1 r2 x0 ->
+  2 * lr * t K ^ 2 * (qp_f (r1 * r2) (kronG A B r2) (flatf r2 UtM) sp rd (flatf r2 (fista2 Rops UtM A B r2 true sp rd lr 0 eps x0 (map (beta_of t) (seq 0 K))))
+                      - qp_f (r1 * r2) (kronG A B r2) (flatf r2 UtM) sp rd s)
+  <= rsum (r1 * r2) (fun p => (flatf r2 x0 p - s p)^2).
+Proof. exact fista2_rate. Qed.
+Print Assumptions C13_fista_list_rate.
+Theorem C13_fista_list_objective_is_matrix_objective : forall (UtM A B : list (list R)) (r1 r2 : nat) (sp rd : R) (z : nat -> R),
+  qp_f (r1 * r2) (kronG A B r2) (flatf r2 UtM) sp rd z = obj2 UtM A B r1 r2 sp rd (fun i j => z (i * r2 + j)%nat).
+Proof. exact qp_f_flat. Qed.
+Print Assumptions C13_fista_list_objective_is_matrix_objective.
+(* non-vacuity of the step hypothesis on the instance above (lr = 1/2 = 1/L for A (x) B = diag(2, 1)); the momentum hypotheses are those of
+   C13_fista_rate (satisfied by the code's sequence, C13_fista_rate_optimum) *)
+Example C13_fista_list_rate_step_satisfiable : forall d : nat -> R,
+  (1 / 2) * (quad (2 * 1) (kronG f2_A f2_B 1) d + 2 * 0 * rsum (2 * 1) (fun i => (d i)^2)) <= rsum (2 * 1) (fun i => (d i)^2).
+Proof. exact f2_lipschitz. Qed.
+
+(* FULL (round 8): the Kronecker form of two GRAM matrices is positive semidefinite -- A[i,k] = sum_m Ua[m,i] Ua[m,k], B[j,l] = sum_n Ub[n,j] Ub[n,l]
+   (the cross-product matrices factor^T factor that non_negative_tucker_hals passes as UtU): the form is a sum of squares.  This discharges the PSD
+   hypothesis of C13_fista_list_fixed_point_optimal and C13_fista_list_rate for that use (for PSD matrices not given as Gram matrices it stays assumed) *)
+Theorem C13_fista_list_gram_form_psd : forall (A B : list (list R)) (r1 r2 m1 m2 : nat) (Ua Ub : nat -> nat -> R),
+  (forall i k, (i < r1)%nat -> (k < r1)%nat -> mget Rops A i k = rsum m1 (fun m => Ua m i * Ua m k)) ->
+  (forall j l, (j < r2)%nat -> (l < r2)%nat -> mget Rops B j l = rsum m2 (fun n => Ub n j * Ub n l)) ->
+  forall d, 0 <= quad (r1 * r2) (kronG A B r2) d.
+Proof. exact kron_gram_psd. Qed.
+Print Assumptions C13_fista_list_gram_form_psd.
+Example C13_fista_list_gram_hypotheses_satisfiable :
+  (forall i k, (i < 2)%nat -> (k < 2)%nat -> mget Rops g2_A i k = rsum 1 (fun m => g2_U m i * g2_U m k)) /\
+  (forall j l, (j < 1)%nat -> (l < 1)%nat -> mget Rops f2_B j l = rsum 1 (fun n => 1 * 1)).
+Proof. exact kron_gram_hypotheses_satisfiable. Qed.
 
 (* regression of the former stopping-rule defect: UtU = [[2,1],[1,2]], UtM = (6,3), every parameter at its default
    (lr = 1/3, tol = 1e-8, x0 = 0; epsilon = 0).  After two iterations the point is (7/3, 2/3) and the step was
